@@ -218,8 +218,8 @@ func RunJob(spec JobSpec) (res JobResult) {
 		if other == "" {
 			other = "cvc5"
 		}
-		checked, agreed, noOp, dis := e.z.secondOpinion(other, spec.SecondMax, spec.Seed, 20*time.Second)
-		res.Second = map[string]any{"solver": other, "recorded_assertion_queries": len(e.z.finalQ), "rechecked": checked, "agreed": agreed, "no_second_opinion": noOp, "disagreements": dis}
+		checked, agreed, noOp, dis := e.z.secondOpinion(other, spec.SecondMax, spec.Seed, 20*time.Second, time.Duration(spec.SecondMax)*time.Second)
+		res.Second = map[string]any{"solver": other, "recorded_assertion_queries": len(e.z.finalQ), "feasibility_queries_sampled_from": e.z.nfeas, "rechecked": checked, "agreed": agreed, "no_second_opinion": noOp, "disagreements": dis}
 		if len(dis) > 0 {
 			res.Infra = "solver disagreement: " + strings.Join(dis, "; ")
 		}
